@@ -12,7 +12,7 @@ CHECKS["C16"] = dict(
     runs=dict(quick=40000, thorough=3000000),
     design_ref="DESIGN.md 4.2, 5 (C16)",
     technique="deterministic discrete-event simulation (seeded histories, stalls, re-entrant callbacks) checked against a reference scheduler",
-    level_text="seeded exploration of timer histories under a simulated clock: every callback is validated against a "
+    level_text="seeded exploration of timer histories under a simulated clock (time bases int64, double with fractional deadlines, int32; clock resolution 1 .. 2^31 units per tick): every callback is validated against a "
                "reference scheduler at the moment it fires (never early, earliest first, completeness after exec, exact re-arm), "
                "failures are minimised and replay exactly; sampling, not proof",
     level_note="trusted: the reference scheduler in the harness, single caller thread, time non-decreasing, intervals >= 1",
@@ -42,7 +42,7 @@ CHECKS["C20"] = dict(
               "pthread/semaphore calls and instrumented memory accesses, spurious wake-up injection, vector-clock "
               "happens-before race and object-lifetime detection, model wait-queue / FIFO oracles",
     level_text="seeded exploration of thread schedules of short 2-4 thread programs over the real system lock, wait queue and "
-               "safe_queue code; every run is one exactly replayable interleaving; mutual exclusion, exact wake attribution, "
+               "safe_queue code (default- and initializer-list-constructed); every run is one exactly replayable interleaving; mutual exclusion, exact wake attribution, "
                "lost/spurious wake-ups (deadlock detection), exactly-once/ordering and happens-before races (including use of a "
                "destroyed condition variable) are checked in every run. Sampling of schedules, not enumeration, not proof",
     level_note="trusted: the modelled pthread mutex/condvar/semaphore semantics in sim/thr (non-robust mutexes, no priorities), "
@@ -71,7 +71,7 @@ CHECKS["C04"] = dict(
     technique="deterministic simulation of sender -> byte channel -> receiver in the fault-free configuration, reference encoder/decoder oracle, ASan on exact-size buffers",
     level_text="seeded exploration of traffic (1-5 back-to-back frames, marker-heavy payloads, CRC steered onto markers, iovec partitions) through the "
                "real encoders and the real receivers over a fault-free simulated link: frame format, exactly-once in-order delivery on the last byte, "
-               "content equality, output-buffer bounds. Sampling, not proof",
+               "content equality, output-buffer bounds; also on a receiver object that was re-initialised in the middle of an earlier frame (init / setbuf / setbuf onto a new buffer) or that reported overflow for an earlier frame. Sampling, not proof",
     level_note="trusted: the reference encoder/unescape/CRC-8 in the harness; ASan for bounds; this is the fault-free configuration of the C05 world",
     rule="one run = one seeded traffic of 1..5 frames for one framing variant (configurable v1 alphabet, configurable start==stop alphabet, legacy C) "
          "and one encoder entry point, delivered byte by byte without faults. non-trivial = some payload byte or the CRC needed escaping; "
@@ -93,7 +93,7 @@ CHECKS["C05"] = dict(
               "receiver restart, undersized buffers); per-traffic enumeration of every single-fault offset; reference unescape/CRC oracle evaluated at every byte",
     level_text="seeded traffic (2-6 frames + noise) with faults attached to frames; one third of the runs enumerate a single fault of one kind at every byte "
                "offset of the traffic. After every byte: capacity bound (S1), soundness of every completed packet against the bytes since the last start marker (S2); "
-               "after the last fault: resynchronisation within one frame (two when start==stop) (S3) and overflow reporting (S4). Sampling of traffic, enumeration of fault offsets",
+               "after the last fault: resynchronisation within one frame (two when start==stop) (S3) and overflow reporting (S4). Receiver restarts are init(), setbuf() or setbuf() onto a fresh buffer; a sweep world puts every byte value behind the stuffing byte. Sampling of traffic, enumeration of fault offsets",
     level_note="trusted: reference unescape/CRC in the harness; ASan for memory safety; relaxation under faults is narrow: a damaged frame may be dropped or "
                "reported as an error, never delivered altered",
     rule="one run = one seeded traffic for one receiver variant and capacity with 0-3 attached faults, or (sweep runs) the traffic replayed once per byte offset with "
@@ -114,7 +114,7 @@ CHECKS["C03"] = dict(
     design_ref="DESIGN.md 4.6, 5 (C03)",
     technique="deterministic simulation of producer/consumer/DMA tasks (with stalls) interleaved on one ring, refinement against a reference queue after every step, simulated memory (SimAlloc) + ASan",
     level_text="seeded histories of producer, consumer and DMA-style tasks over rings of every size 2..17 (67 thorough), all byte values with 0xFF/0x00 weighted; "
-               "after every step the real ring is compared with a std::deque reference (content, counts, full/empty, index range, relative accessors). Sampling, not proof",
+               "after every step the real ring is compared with a std::deque reference (content, counts, full/empty, index range, relative accessors; external producer publishing with set_last_index). Sampling, not proof",
     level_note="sequential refinement against a reference model at operation granularity (the rings promise no finer atomicity); trusted: the reference queue and "
                "modular arithmetic in the harness; push on a full typed ring / pop on an empty one are treated as caller misuse and not generated",
     rule="one run = one seeded op history on one structure (C ring API, igris::ring<char>, igris::ring<int>, cyclic_buffer+ring_counter) with phases in which only "
@@ -139,7 +139,7 @@ CHECKS["C10"] = dict(
     technique="deterministic simulation of several client tasks (allocate / free / reallocate / die) against the real allocators, shadow interval map of live blocks with byte patterns checked after every step, ASan",
     level_text="seeded histories of 2-4 clients over the bare-metal heap (malloc/free/realloc on a harness-provided arena) and the three fixed-block pools: every returned "
                "block is checked for arena bounds, alignment, disjointness from all live blocks, untouched contents, realloc prefix; pools for exact capacity, null beyond it, "
-               "free-count = capacity - live; heap returns to its initial break when everybody has died. Sampling, not proof",
+               "free-count = capacity - live (element layouts of 3..64 bytes, alignment 1..64, pool embedded behind other data); heap returns to its initial break when everybody has died. Sampling, not proof",
     level_note="sequential refinement against a shadow model at operation granularity; trusted: the shadow map; the heap's own limit of 99 live allocations is respected as a configuration bound; "
                "the second part runs the heap's clients as real threads under the E1 thread simulator (seeded schedules, happens-before detector on arena and free list)",
     rule="one run = one seeded history over one allocator (lin heap, C pool_head, igris::pool, static_object_pool) with request sizes from {0,1,7,8,9,...,3000}, "
@@ -161,7 +161,7 @@ CHECKS["C01"] = dict(
     technique="deterministic simulation of client tasks applying list operations (including node and list death) to the real intrusive lists, refinement against reference sequences after every step, every node its own heap object under ASan",
     level_text="seeded operation histories over 1-12 nodes and 1-4 lists per kind (C dlist, C++ dlist_node/dlist_base/dlist<>, C/C++ slist, hlist): after every step each list is "
                "traversed forward and backward through the public iterators/macros and compared with a reference sequence, together with size/empty/membership queries, back-pointer "
-               "consistency of every linked node, self-linkedness of unlinked nodes and harmless second removal. Sampling of histories, not proof",
+               "consistency of every linked node, self-linkedness of unlinked nodes and harmless second removal; one world keeps each object in up to four lists at once through same-typed links and runs populations of 1..9 or 1001..1200 objects. Sampling of histories, not proof",
     level_note="sequential refinement only (licence (e) of DESIGN.md section 2): no scheduler dimension and no fault dimension beyond node/list death; API contracts are honoured by the generator "
                "(the C add family and dlist_move_sorted get unlinked nodes, poisoned nodes are re-initialised, hlist_del'ed nodes are re-initialised by the caller)",
     rule="one run = one seeded op history on one list family. non-trivial = at least two lists were non-empty at once, a move happened and a linked node died "
@@ -180,7 +180,7 @@ CHECKS["C02"] = dict(
     ],
     design_ref="DESIGN.md 4.6, 5 (C02)",
     technique="deterministic simulation of operation histories over the Allocator/memory seam (SimAlloc: exact-size blocks, seed-chosen fill and immediate reuse), lifetime-tracking element type, step-by-step refinement against std::vector / std::map / std::set, ASan",
-    level_text="seeded histories on two vectors (so copy/move/compare between them are reachable) with int and lifetime-tracked elements: after every step size, element sequence, "
+    level_text="seeded histories on two vectors (so copy/move/compare between them are reachable) with int, lifetime-tracked and trivially-copyable-with-own-equality elements: after every step size, element sequence, "
                "capacity >= size, comparisons and at() are compared with std::vector; every element construction/destruction/assignment is checked against a registry of live "
                "objects; allocator calls are balanced; flat_map / flat_set are compared with std::map / std::set. The twin of igris::vector in std_portable.h runs as a second part. Sampling, not proof",
     level_note="sequential refinement against a reference model; no scheduler dimension, and no fault dimension beyond allocator/memory behaviour (what fresh memory contains, whether a freed block comes "
@@ -201,8 +201,8 @@ CHECKS["C14"] = dict(
     ],
     design_ref="DESIGN.md 4.6, 5 (C14)",
     technique="deterministic simulation of operation histories on container objects placed in simulated memory (exact-size SimAlloc blocks, seed-chosen fill), lifetime-tracking elements with storage-zone check, refinement against a reference truncated to N, ASan",
-    level_text="seeded histories over two static_vector<T,N> objects (N in {1,2,3,4,8}, T int or lifetime-tracked) and static_string<N> (N in {1,2,4,8}) offered 0..2N elements through "
-               "push/emplace/resize/constructors/assignment: size <= N, room, contents == reference prefix, c_str() terminated inside the object, every element constructed inside the "
+    level_text="seeded histories over two static_vector<T,N> objects (N in {1,2,3,4,8,256}, T int or lifetime-tracked) and static_string<N> (N in {1,2,4,8}) offered 0..2N elements through "
+               "push/emplace/resize/constructors (ranges from pointers, list iterators and single-pass readers)/assignment: size <= N, room, contents == reference prefix, c_str() terminated inside the object, every element constructed inside the "
                "element storage and destroyed exactly once. The std_portable.h twins run as a second part. Sampling, not proof",
     level_note="sequential refinement against a reference model; no scheduler dimension, and no fault dimension beyond object death and memory behaviour; members that do not compile "
                "when instantiated (static_string::operator[] in static_string.h) are outside the property; the content of a moved-from container is not compared",
@@ -222,9 +222,9 @@ CHECKS["C15"] = dict(
     runs=dict(quick=30000, thorough=3000000),
     design_ref="DESIGN.md 4.4, 5 (C15), 11 A.1",
     technique="deterministic simulation of a keyboard task feeding the real terminal automaton byte by byte (with line-noise and interrupt injection), echo stream replayed on a VT100 screen model, reference editor oracle after every key, ASan on exact-size buffers",
-    level_text="seeded key histories (printables, BS, arrows, Delete, CR/LF in all pairings, Ctrl-C, unknown escapes; capacities 2..24, history depth 1..5, lines longer than the buffer, history wrap) "
+    level_text="seeded key histories (printables, BS, arrows, Delete, CR/LF in all pairings, Ctrl-C, unknown escapes; capacities 2..24, history depth 1..9, lines longer than the buffer, history wrap) "
                "through vterm.c and vtermxx.cpp: after every key the screen row/cursor reconstructed from the echo stream, the lines handed to execute, SIGINT count and the bounds "
-               "0 <= cursor <= length < capacity are compared with a reference editor. A noise configuration (arbitrary bytes, Ctrl-C inside escapes) checks the safety half only; "
+               "0 <= cursor <= length < capacity are compared with a reference editor; the terminal object is re-initialised with another geometry in the middle of a history. A noise configuration (arbitrary bytes, Ctrl-C inside escapes) checks the safety half only; "
                "a third world drives the sline API, the igris::sline wrapper and readline_linecpy against a string+cursor model. Sampling, not proof",
     level_note="trusted: the reference editor and the VT100 model in the harness (written from the key table in the headers); what Up shows behind the oldest stored line and a Ctrl-C between "
                "CR and LF are not defined by the property and are not generated in the well-formed configuration",
